@@ -44,7 +44,7 @@ func genC17(seed uint64, tier string) C17Cfg {
 	if r.Bool(0.2) {
 		c.Domain = "dom-" + fmt.Sprint(r.Intn(9))
 	}
-	c.Fault = pickStr(r, []string{"none", "none", "none", "down", "stall", "garble", "reset", "flood-down", "oversize", "pieces"})
+	c.Fault = pickStr(r, []string{"none", "none", "none", "down", "down-heal", "down-heal", "stall", "garble", "reset", "flood-down", "oversize", "pieces"})
 	if c.Fault != "none" {
 		c.Victim = 1 + r.Intn(c.N)
 	}
@@ -140,9 +140,10 @@ func runC17(t *testing.T, spec RunSpec) *RunResult {
 			}
 		}
 		victimHost := fmt.Sprintf("p%d.sim", cfg.Victim)
-		if cfg.Fault == "down" || cfg.Fault == "flood-down" {
+		if cfg.Fault == "down" || cfg.Fault == "flood-down" || cfg.Fault == "down-heal" {
 			cw.net.Refuse[victimHost] = true
 		}
+		healed := false
 		// expected[receiver] = messages addressed to it, grouped by sending goroutine in order
 		expected := map[int]map[int][]c17Expect{}
 		topicOf := func(g int) []byte { return sha([]byte(fmt.Sprintf("c17-topic-%d", g))) }
@@ -227,6 +228,22 @@ func runC17(t *testing.T, spec RunSpec) *RunResult {
 							break
 						}
 					}
+				case "down-heal":
+					// the unreachable peer comes up: everything that was accepted for it while it was down is still owed to it
+					allStarted := true
+					for _, st := range states {
+						if !st.started {
+							allStarted = false
+						}
+					}
+					if allStarted && w.Now() > 3*time.Second {
+						ps = append(ps, netsim.Proposal{Key: "fault:heal", Mandatory: true, Weight: 2, Fire: func() {
+							faultFired = true
+							healed = true
+							w.Faults["peer-comes-up"]++
+							cw.net.Refuse[victimHost] = false
+						}})
+					}
 				case "oversize", "pieces":
 					ps = append(ps, netsim.Proposal{Key: "fault:" + cfg.Fault, Mandatory: true, Weight: 3, Fire: func() {
 						faultFired = true
@@ -278,7 +295,7 @@ func runC17(t *testing.T, spec RunSpec) *RunResult {
 			return ps
 		}
 		healthy := func(id int) bool {
-			return cfg.Fault == "none" || cfg.Fault == "oversize" || cfg.Fault == "pieces" || id != cfg.Victim
+			return cfg.Fault == "none" || cfg.Fault == "oversize" || cfg.Fault == "pieces" || cfg.Fault == "down-heal" || id != cfg.Victim
 		}
 		complete := func() bool {
 			for _, st := range states {
@@ -311,6 +328,7 @@ func runC17(t *testing.T, spec RunSpec) *RunResult {
 			}
 			return cw.net.PendingBytes() == 0 || (cfg.Fault == "stall" && faultFired)
 		}
+		_ = healed
 		horizon := 60 * time.Second
 		if cfg.Fault == "flood-down" {
 			horizon = 40 * time.Second
